@@ -76,9 +76,9 @@ func desc(v ssa.Value, depth int, seen map[ssa.Value]bool) string {
 	case *ssa.Field:
 		return desc(x.X, depth-1, seen) + "." + fieldName(x.X.Type(), x.Field)
 	case *ssa.IndexAddr:
-		return desc(x.X, depth-1, seen) + "[" + desc(x.Index, depth-1, seen) + "]"
+		return desc(x.X, depth-1, seen) + "[" + descIdx(x.Index, depth-1, seen) + "]"
 	case *ssa.Index:
-		return desc(x.X, depth-1, seen) + "[" + desc(x.Index, depth-1, seen) + "]"
+		return desc(x.X, depth-1, seen) + "[" + descIdx(x.Index, depth-1, seen) + "]"
 	case *ssa.Lookup:
 		return desc(x.X, depth-1, seen) + "[" + desc(x.Index, depth-1, seen) + "]"
 	case *ssa.UnOp:
@@ -107,6 +107,11 @@ func desc(v ssa.Value, depth int, seen map[ssa.Value]bool) string {
 		parts = dedup(parts)
 		return "phi{" + strings.Join(parts, "|") + "}"
 	case *ssa.Alloc:
+		if sv := SingleStore(x); sv != nil && !seen[v] {
+			seen[v] = true
+			defer delete(seen, v)
+			return desc(sv, depth, seen)
+		}
 		return "local(" + TypeName(x.Type().(*types.Pointer).Elem()) + ")"
 	case *ssa.MakeInterface:
 		return desc(x.X, depth, seen)
@@ -140,6 +145,86 @@ func desc(v ssa.Value, depth int, seen map[ssa.Value]bool) string {
 		return desc(x.X, depth, seen)
 	}
 	return fmt.Sprintf("?%T", v)
+}
+
+// SingleStore: if the local variable a is assigned exactly once as a whole (the spill of
+// a value receiver / parameter, or `x, ok := f()` of a struct whose address is taken
+// later) and none of its fields or elements is stored to separately, return the stored
+// value; the variable then denotes that value everywhere.
+func SingleStore(a *ssa.Alloc) ssa.Value {
+	refs := a.Referrers()
+	if refs == nil {
+		return nil
+	}
+	var val ssa.Value
+	n := 0
+	for _, r := range *refs {
+		switch x := r.(type) {
+		case *ssa.Store:
+			if x.Addr == a {
+				n++
+				val = x.Val
+			}
+		case *ssa.FieldAddr:
+			if addrWritten(x) {
+				return nil
+			}
+		case *ssa.IndexAddr:
+			if addrWritten(x) {
+				return nil
+			}
+		case *ssa.UnOp, *ssa.DebugRef:
+		default:
+			// address escapes (call argument, closure capture …): a callee may write it
+			if _, isCall := r.(ssa.CallInstruction); isCall {
+				// value receivers are spilled and then passed by address to pointer
+				// methods only if the source says so; treat as escaping
+				return nil
+			}
+			if _, ok := r.(*ssa.MakeClosure); ok {
+				return nil
+			}
+		}
+	}
+	if n != 1 {
+		return nil
+	}
+	return val
+}
+
+func addrWritten(v ssa.Value) bool {
+	refs := v.Referrers()
+	if refs == nil {
+		return false
+	}
+	for _, r := range *refs {
+		switch x := r.(type) {
+		case *ssa.Store:
+			if x.Addr == v {
+				return true
+			}
+		case *ssa.FieldAddr:
+			if addrWritten(x) {
+				return true
+			}
+		case *ssa.IndexAddr:
+			if addrWritten(x) {
+				return true
+			}
+		case ssa.CallInstruction:
+			return true
+		}
+	}
+	return false
+}
+
+// descIdx renders slice/array indices: constants verbatim, anything else as "i" (loop
+// counters carry no meaning for the rules and their phi webs only add noise).
+func descIdx(v ssa.Value, depth int, seen map[ssa.Value]bool) string {
+	if c, ok := v.(*ssa.Const); ok {
+		return desc(c, depth, seen)
+	}
+	return "i"
 }
 
 func descCall(c *ssa.CallCommon, depth int, seen map[ssa.Value]bool) string {
